@@ -37,6 +37,9 @@ def dv(j):
             return {k: dv(v) for k, v in j["d"]}
         if "f" in j:
             return float(j["f"])
+        if "c" in j:
+            from coba.primitives import Categorical
+            return Categorical(j["c"], list(j["L"]))
         raise ValueError(j)
     if isinstance(j, list):
         return [dv(x) for x in j]
@@ -51,6 +54,8 @@ def cv(x, depth=0):
     if x is None or isinstance(x, bool):
         return x
     if isinstance(x, str):
+        if type(x).__name__ == "Categorical":
+            return {"cat": str(x)}          # == its string, but a filter that one-hot encodes it in place must show
         return str(x)
     if isinstance(x, int):
         return x
@@ -594,10 +599,13 @@ def g_ctx(rng, kind, width):
         return {"d": [[k, g_num(rng)] for k in keys]}
     if kind == "nested":
         return [g_num(rng), [g_num(rng), g_num(rng)]]
+    if kind == "nestedcat":
+        lv = ["lo", "mid", "hi"]
+        return [[{"c": rng.choice(lv), "L": lv}, {"c": rng.choice(lv), "L": lv}], g_num(rng)]
     raise ValueError(kind)
 
 
-CTX_KINDS = ["none", "value", "str", "dense", "dense", "densecat", "densenone", "tuple", "sparse", "sparse", "nested"]
+CTX_KINDS = ["none", "value", "str", "dense", "dense", "densecat", "densenone", "tuple", "sparse", "sparse", "nested", "nestedcat"]
 
 
 def g_lambda(rng, n):
@@ -668,7 +676,7 @@ def g_sup(rng, n):
     width = rng.randint(1, 3)
     lt = rng.choice(["c", "c", "c", "r", "m", None, None])
     if r < 30:
-        ck = rng.choice(["dense", "dense", "sparse", "value", "densecat", "densenone"])
+        ck = rng.choice(["dense", "dense", "sparse", "value", "densecat", "densenone", "nestedcat"])
         X = [g_ctx(rng, ck, width) for _ in range(n)]
         Y = g_labels(rng, n, lt or rng.choice(["c", "r"]), tricky_ok=True)
         shape = {"ctx": ck, "act": "empty" if (lt == "r" or (lt is None and Y and not isinstance(Y[0], str))) else "str", "width": width, "nact": 3,
@@ -2302,6 +2310,23 @@ class C04(Property):
             cs.append({"src": st, "chain": [{"m": "sparse", "a": [True, True]}], "hist": [full, {"op": "save", "on": 0}, {"op": "full", "on": 1}]})
         cs.append({"src": dict(lam, n=6, acts=[["red wine", " lead", "it's", ""]], rwds=[[1, 0, 0.5, 0.25]]), "chain": [{"m": "binary"}, {"m": "materialize"}],
                    "hist": [full, {"op": "pickle", "on": 0}, {"op": "full", "on": 1}, {"op": "save", "on": 0}, {"op": "full", "on": 2}]})
+        # pinned (independent of the random stream): a pickled Noise filter whose seed is not the default one
+        for nk in ({"context": {"t": ["i", 0, 2]}, "seed": 5}, {"reward": {"t": ["i", 0, 3]}, "seed": 7}, {"action": {"t": ["i", 1, 2]}, "context": {"t": ["g", 0, 1]}, "seed": 3}):
+            cs.append({"src": dict(lin, n=6), "chain": [{"m": "noise", "k": nk}], "hist": [full, {"op": "pickle", "on": 0}, {"op": "full", "on": 1}, part(2, 1), {"op": "full", "on": 1}, full]})
+        cs.append({"src": dict(lin, n=6), "chain": [{"m": "noise", "k": {"context": {"t": ["i", 0, 2]}, "seed": 5}}], "hist": [{"op": "pickle", "on": 0}, {"op": "full", "on": 1}, full], "xproc": True})
+        # pinned: more than 1024 feedback evaluations between two reads of a grounded environment held by cache() / materialize()
+        many = dict(lam, n=262, acts=[["x", "y", "z", "w"]], rwds=[[1, 0, 0.5, 0.25], [0, 1, 0.25, 0.5]])
+        cs.append({"src": many, "chain": [{"m": "grounded", "a": [4, 2, 5, 2, 3]}, {"m": "cache"}], "hist": [full, full]})
+        cs.append({"src": many, "chain": [{"m": "grounded", "a": [4, 2, 5, 2, 3]}, {"m": "materialize"}], "hist": [full, full]})
+        # pinned: Categorical values inside a nested mutable container of the caller's X, read partially and then completely
+        lv = ["lo", "mid", "hi"]
+        Xn = [[[{"c": lv[i % 3], "L": lv}, {"c": lv[(i + 1) % 3], "L": lv}], float(i)] for i in range(6)]
+        ncat = {"kind": "sup_xy", "X": Xn, "Y": ["a", "b", "a", "b", "a", "b"], "label_type": "c"}
+        cs.append({"src": ncat, "chain": [], "hist": [part(2), full, full, par]})
+        cs.append({"src": ncat, "chain": [{"m": "cache"}], "hist": [full, part(1), full]})
+        cs.append({"src": dict(lam, n=6, ctxs=[x for x in Xn[:3]]), "chain": [], "hist": [part(1), full, full]})
+        cs.append({"src": {"kind": "sup_rows", "via": "list", "rows": [{"t": [Xn[i], ["a", "b"][i % 2]]} for i in range(6)], "label_col": None, "label_type": "c", "take": None},
+                   "chain": [], "hist": [part(2), full, full]})
         # a collection of different environments: every shortcut must give each member its own pipes (cache/chunk/materialize/...)
         lin2 = dict(lin, n=6, seed=5)
         for chain in ([{"m": "cache"}], [{"m": "chunk", "a": [True]}], [{"m": "materialize"}], [{"m": "shuffle", "a": [3]}, {"m": "cache"}],
